@@ -48,6 +48,7 @@ type WorkerOut struct {
 	MaxSimNS  int64             `json:"max_sim_ns"`
 	WallS     float64           `json:"wall_s"`
 	RelHashes []string          `json:"rel_hashes"`
+	Traces    []string          `json:"trace_hashes"`
 	NonTriv   int               `json:"nontrivial_runs"`
 	Probes    map[string]int    `json:"probes"`
 	Faults    map[string]int    `json:"faults"`
@@ -98,6 +99,7 @@ func TestWorker(t *testing.T) {
 		out.RunHashes = map[string]string{}
 	}
 	rel := map[uint64]struct{}{}
+	traces := map[uint64]struct{}{}
 	states := map[string]struct{}{}
 	trans := map[string]struct{}{}
 	start := time.Now()
@@ -117,6 +119,7 @@ func TestWorker(t *testing.T) {
 			out.MaxSimNS = int64(r.SimTime)
 		}
 		agg = agg*fnvPrime ^ r.Hash
+		traces[r.Hash] = struct{}{}
 		if *fHashes {
 			out.RunHashes[fmt.Sprint(run)] = fmt.Sprintf("%016x", r.Hash)
 		}
@@ -182,6 +185,9 @@ func TestWorker(t *testing.T) {
 		out.RelHashes = append(out.RelHashes, fmt.Sprintf("%016x", h))
 	}
 	sort.Strings(out.RelHashes)
+	for h := range traces {
+		out.Traces = append(out.Traces, fmt.Sprintf("%016x", h))
+	}
 	for k := range states {
 		out.States = append(out.States, k)
 	}
